@@ -223,6 +223,23 @@ pub fn check(thorough: bool, _seed: u64) -> Check {
         sym_phase("provenance-nasty-ends", nasty, json!({"operands": "every ordered pair of end lists over {-MAX,-0.0,+0.0,5e-324,1,succ(1),MAX,+inf}"}), false),
         numeric_phase(thorough),
     ];
+    {
+        // long operands: 1..n and its even / odd / shifted sub-grids, n up to 9 (14 thorough)
+        let mut long: Vec<Vec<f64>> = vec![];
+        for n in [6usize, 7, 9].into_iter().chain(if thorough { vec![12usize, 14] } else { vec![] }) {
+            let full: Vec<f64> = (1..=n).map(|i| i as f64).collect();
+            long.push(full.clone());
+            long.push(full.iter().cloned().filter(|v| (*v as usize) % 2 == 0).collect());
+            long.push(full.iter().cloned().filter(|v| (*v as usize) % 2 == 1).collect());
+            long.push(full.iter().map(|v| v + 0.5).collect());
+            long.push(full[..n / 2].to_vec());
+            long.push(vec![full[n - 1]]);
+            let mut d = full.clone();
+            d[n - 1] = d[n - 2];
+            long.push(d);
+        }
+        phases.push(sym_phase("provenance-long-operands", long, json!({"operands": "every ordered pair among 1..n (n=6,7,9; 12,14 thorough), its even / odd / half-shifted sub-grids, its first half, its last end alone, and a copy with a duplicated last end"}), false));
+    }
     if thorough {
         let v6 = shapes(&[1.0, 2.0, 3.0, 4.0, 5.0, 6.0], 6).into_iter().filter(|e| e.len() == 6 || e.len() <= 2).collect();
         phases.push(sym_phase("provenance-6-pieces", v6, json!({"operands": "pairs among end lists of length 6 and length 1..2 over {1..6}"}), false));
